@@ -12,7 +12,8 @@
 // tool fails loudly instead of silently producing an un-instrumented build.
 //
 // List file format, one entry per line:  <path relative to repo> <flag>...
-// flags: sync (must import "sync"), chan.
+// flags: sync (must import "sync"), sync? (redirect if imported), chan,
+// field=<name> (accesses to that struct field are scheduling points).
 package main
 
 import (
@@ -95,8 +96,8 @@ func rewrite(src string, flags map[string]bool) (int, []byte) {
 	if err != nil {
 		die("%v", err)
 	}
-	if flags["sync"] {
-		found := false
+	if flags["sync"] || flags["sync?"] {
+		found := flags["sync?"]
 		for _, im := range file.Imports {
 			if im.Path.Value == `"sync"` {
 				im.Path.Value = strconv.Quote(shimSync)
@@ -111,14 +112,21 @@ func rewrite(src string, flags map[string]bool) (int, []byte) {
 		}
 	}
 	n := 0
-	if flags["chan"] {
+	for fl := range flags {
+		if strings.HasPrefix(fl, "field=") {
+			fieldNames[strings.TrimPrefix(fl, "field=")] = true
+		}
+	}
+	defer func() { fieldNames = map[string]bool{} }()
+	if flags["chan"] || len(fieldNames) > 0 {
+		chanMode = flags["chan"]
 		for _, d := range file.Decls {
 			if fd, ok := d.(*ast.FuncDecl); ok && fd.Body != nil {
 				n += instrBlock(fd.Body)
 			}
 		}
 		if n == 0 {
-			die("%s: flagged 'chan' but no channel operation found", src)
+			die("%s: flagged 'chan'/'field=' but nothing to instrument was found", src)
 		}
 		// add the import
 		imp := &ast.ImportSpec{Name: ast.NewIdent("verifsched"), Path: &ast.BasicLit{Kind: token.STRING, Value: strconv.Quote(shimSched)}}
@@ -145,6 +153,11 @@ func rewrite(src string, flags map[string]bool) (int, []byte) {
 	return n, buf.Bytes()
 }
 
+// fieldNames: accesses to struct fields with these names are scheduling
+// points too (for structures that use no synchronisation at all).
+var fieldNames = map[string]bool{}
+var chanMode bool
+
 func pcall(after int) ast.Stmt {
 	return &ast.ExprStmt{X: &ast.CallExpr{
 		Fun:  &ast.SelectorExpr{X: ast.NewIdent("verifsched"), Sel: ast.NewIdent("P")},
@@ -161,9 +174,15 @@ func hasChanOp(s ast.Stmt) bool {
 		case *ast.FuncLit, *ast.BlockStmt:
 			return false
 		case *ast.SendStmt:
-			found = true
+			if chanMode {
+				found = true
+			}
 		case *ast.UnaryExpr:
-			if x.Op == token.ARROW {
+			if chanMode && x.Op == token.ARROW {
+				found = true
+			}
+		case *ast.SelectorExpr:
+			if fieldNames[x.Sel.Name] {
 				found = true
 			}
 		}
@@ -179,6 +198,10 @@ func instrList(list []ast.Stmt) ([]ast.Stmt, int) {
 		n += instrStmt(s)
 		switch x := s.(type) {
 		case *ast.SelectStmt:
+			if !chanMode {
+				out = append(out, s)
+				continue
+			}
 			out = append(out, pcall(0), s)
 			n++
 			// after-points at the start of each communication clause
